@@ -43,9 +43,27 @@ def case_indices(spec, rec):
         yield i
 
 
+# share of generated grids whose length unit is a power of ten other than 1 (1e-3..1e3): cell sizes, box origins
+# and everything the generators derive from them (positions, radii, widths, distances) scale along
+UNIT_P = {"C01": 0.15, "C02": 0.15, "C03": 0.15, "C04": 0.15, "C09": 0.15, "C10": 0.15, "C14": 0.15}
+
+
 def run_generated(spec, rec, gen, run, prop):
     """Standard loop: case = gen(rng, kind, tier); run(case, rec) inside a case context."""
+    from ..oracles import geom
+
     kind = spec["kind"]
+    geom.UNIT_P = UNIT_P.get(prop, 0.0)
+    geom.UNIT_SEEN.clear()
+    try:
+        _run_generated(spec, rec, gen, run, prop, kind)
+    finally:
+        for u, n in geom.UNIT_SEEN.items():
+            rec.count(f"grids_with_length_unit:{u}", n)
+        geom.UNIT_P = 0.0
+
+
+def _run_generated(spec, rec, gen, run, prop, kind):
     for i in case_indices(spec, rec):
         rng = core.sub_rng(spec["seed"], prop, kind, i)
         try:
